@@ -29,6 +29,7 @@ def _worker_init():
 def _verify_one(job):
     key, timeout_ms, opaque = job[:3]
     only = job[3] if len(job) > 3 else None
+    pin_len = job[4] if len(job) > 4 else None
     if "ctx" not in _W:
         _worker_init()
     from pyvc.verify import verify_function
@@ -42,7 +43,7 @@ def _verify_one(job):
     ex._ent_cache.clear()
     ex.opaque = set(opaque)
     try:
-        rep = verify_function(ex, key, timeout_ms, only=only)
+        rep = verify_function(ex, key, timeout_ms, only=only, pin_len=pin_len)
         for r in rep.results:
             r.meta.pop("z3model", None)
             r.meta.pop("args", None)
